@@ -12,6 +12,8 @@ structure CfgOk (c : Cfg) : Prop where
 
 def ValidRec (c : Cfg) (d : Bytes) : Prop := c.minMsgSize ≤ d.length ∧ d.length ≤ c.maxMsgSize
 
+instance (c : Cfg) (d : Bytes) : Decidable (ValidRec c d) := by unfold ValidRec; infer_instance
+
 /-- the read-ahead: nothing valid is pending (the loop will read again), or `pending` is the first
 unconsumed record of the read file and `next*` is the position behind it (rolled to the next file
 when that record was the last of a completed file) -/
